@@ -92,6 +92,9 @@ def gen(run):
             act = bytes(rng.choice(b'abcxyz09') for _ in range(rng.choice([0, 0, 1, 5, 17])))
             if rng.random() < 0.15:
                 sub = sub + rng.choice([b'_', b'A', b'_x', b'-'])
+            if rng.random() < 0.35:     # multi-word parts: each part is fine by itself, the assembled name may have more than four segments
+                words = lambda k: b'_'.join(bytes(rng.choice(b'abcxyz09') for _ in range(rng.randint(1, 4))) for _ in range(k))
+                sub, act = words(rng.randint(1, 3)), (words(rng.randint(1, 3)) if rng.random() < 0.7 else b'')
             hist.append('b %s %s %s' % (hx(m), hx(sub), hx(act)))
     return cases, n_window, hist
 
